@@ -88,7 +88,7 @@ def check_iter_chunks_scenarios(ctx):
             try:
                 res = effects.run(ctx, dom, ic, None, {params[0]: STREAM, params[1]: SIZE, params[2]: offset, params[3]: WHENCE}, state=State(), depth=3)
             except Undecided as e:
-                if "loop state" not in str(e):
+                if "loop state" not in str(e) and "does not end within" not in str(e):
                     raise
                 # the modelled stream is deterministic: a loop that outgrows the budget keeps reading after read() returned b''
                 problems.add(f"[{len(chunks)} chunks, {label}] reading does not stop at the end of the stream (read() returning b'' for ever does not end the loop)")
@@ -224,7 +224,7 @@ def _apply_later(ctx, dom, func, fn, st):
     outside = ast.parse("def _reading_the_content_later():\n    pass").body[0]   # a frame that is not the defining one: closures must bring their environment
     fr = Frame(outside, 0, None, name="<reading the content>", is_method=False)
     from ..absint import Result, unbox_deep, without_heap
-    return [Result(r.kind, unbox_deep(r.value, r.state, iters=True), without_heap(r.state)) for r in dom.apply(it, fn, [], [], st, fr)]
+    return [Result(r.kind, unbox_deep(r.value, r.state, iters=True), without_heap(r.state)) for r in it._forced(dom.apply(it, fn, [], [], st, fr), fr)]
 
 
 def check_sources(ctx):
